@@ -203,7 +203,7 @@ theorem feedAllL_objInv (g : Cfg) (limit : Nat) :
   | cons seg segs ih =>
     intro p cache acc cur hI
     simp only [feedAllL, parseLC_eq]
-    by_cases ht : cache ≠ [] ∧ limit > 0 ∧ cache.length + seg.length > limit
+    by_cases ht : seg ≠ [] ∧ cache ≠ [] ∧ limit > 0 ∧ cache.length + seg.length > limit
     · have hp : parseL (machine g) limit p cache seg acc = ⟨acc, .inr 11⟩ := by
         unfold parseL; rw [if_pos ht]
       rw [hp]
